@@ -7,6 +7,7 @@ import PyAbel.Model.Proto
 import PyAbel.Model.Symmetry
 import PyAbel.Model.Center
 import PyAbel.Model.Pipeline
+import PyAbel.Model.Dispatch
 open PyAbel PyAbel.Proto
 
 def axOfNat : Nat → Option SymAxis
@@ -18,6 +19,18 @@ def cropOfNat : Nat → Option Crop
 /-- `N` = None / axis not selected; otherwise a (possibly negative) integer -/
 def parseOrigin (s : String) : Option (Option Int) :=
   if s == "N" then some none else s.toInt?.map some
+
+def methodOfNat : Nat → Option Method
+  | 0 => some .basex | 1 => some .daun | 2 => some .direct | 3 => some .hansenlaw | 4 => some .onion_bordas
+  | 5 => some .onion_peeling | 6 => some .two_point | 7 => some .three_point | 8 => some .linbasex
+  | 9 => some .rbasex | _ => none
+
+def methodIdx : Method → Nat
+  | .basex => 0 | .daun => 1 | .direct => 2 | .hansenlaw => 3 | .onion_bordas => 4 | .onion_peeling => 5
+  | .two_point => 6 | .three_point => 7 | .linbasex => 8 | .rbasex => 9
+
+def dirOfNat : Nat → Option Dir
+  | 0 => some .forward | 1 => some .inverse | 2 => some .other | _ => none
 
 def showImg (im : Img Float) : String :=
   s!"ok {im.rows} {im.cols} " ++ showFloats im.toList
@@ -55,6 +68,21 @@ def handle (toks : List String) : String :=
       if !admissible ax m then "raise" else
       showImg (transformQuadrants stubT (Img.ofArray r c 0.0 xs) ax m)
     | _, _, _, _, _, _, _, _ => "bad-op"
+  -- dispatch vt method|X dir oneD rows cols centring anyq originOK cropOK symOK regOK outOK
+  | ["dispatch", vt, m, d, oneD, r, c, cen, anyq, oOK, cOK, sOK, rOK, outOK] =>
+    match parseBool vt, d.toNat? >>= dirOfNat, parseBool oneD, r.toNat?, c.toNat?, parseBool cen, parseBool anyq,
+          parseBool oOK, parseBool cOK, parseBool sOK, parseBool rOK, parseBool outOK with
+    | some vt, some d, some oneD, some r, some c, some cen, some anyq, some oOK, some cOK, some sOK, some rOK,
+      some outOK =>
+      let meth : Option (Option Method) := if m == "X" then some none else (m.toNat? >>= methodOfNat).map some
+      match meth with
+      | none => "bad-op"
+      | some meth =>
+        match dispatch ⟨vt, meth, d, oneD, r, c, cen, anyq, ⟨oOK, cOK, sOK, rOK, outOK⟩⟩ with
+        | .raise => "raise"
+        | .forwardOp m => s!"fwd {methodIdx m}"
+        | .inverseOp m => s!"inv {methodIdx m}"
+    | _, _, _, _, _, _, _, _, _, _, _, _ => "bad-op"
   -- setcenter crop rows cols o0 o1 <pixels…>   (whole-pixel path of set_center)
   | "setcenter" :: crop :: r :: c :: o0 :: o1 :: rest =>
     match crop.toNat? >>= cropOfNat, r.toNat?, c.toNat?, parseOrigin o0, parseOrigin o1, parseFloats rest with
